@@ -160,13 +160,18 @@ def run(ctx):
             key = json.dumps(tr, sort_keys=True)
             if key not in traces:
                 traces[key] = (tr, {"scenario": scen, "schedule": list(ch.names), "backend": "memory"})
-    if not ctx.quick:
+    if True:
+        # the sqlite storage reads and writes an entry in several statements: every pair of operations (quick: the pairs with a reader
+        # next to a writer, sampled)
         dbdir = tempfile.mkdtemp(prefix="verif_c15_", dir="/dev/shm" if os.path.isdir("/dev/shm") else None)
         try:
-            for scen in scen2:
+            readers = {"lookup", "list", "yplookup", "count"}
+            sql_scens = scen2 if not ctx.quick else \
+                [s for s in scen2 if len({o["op"] for o in s["ops"]} & readers) == 1][::3][:60]
+            for scen in sql_scens:
                 def once_sql(ch):
                     return run_once(nameserver, errors, ch, scen, tfilter, dbdir=dbdir)
-                for ch, tr in S.explore(once_sql, max_preemptions=1, limit=6, rng=rng, random_runs=4):
+                for ch, tr in S.explore(once_sql, max_preemptions=1, limit=ctx.pick(8, 12), rng=rng, random_runs=ctx.pick(2, 4)):
                     runs += 1
                     key = "sql" + json.dumps(tr, sort_keys=True)
                     if key not in traces:
